@@ -37,7 +37,11 @@ def build(cfg, log):
         log.calls.append({'x': x, 'r': r, 'qs': request.query_string.decode('latin1')})
         return Response('ok')
     methods = None if cfg['methods'] == 'any' else ['GET']
+    from clastic import SubApplication
     route = Route(KIND[cfg['kind']], ep, methods=methods, slash_mode=cfg['routeMode'])
+    if cfg.get('embed'):
+        inner = Application([route], slash_mode=cfg['innerMode'])
+        return Application([SubApplication('/', inner, inherit_slashes=cfg['inherit'])], slash_mode=cfg['appMode'])
     app = Application(slash_mode=cfg['appMode'])
     app.add(route, inherit_slashes=cfg['inherit'])
     return app
@@ -146,7 +150,7 @@ def check(run):
                 '(the answer is not a plain 404)')
     run.assumptions = ['query equality is judged at the WSGI level (QUERY_STRING), so a dangling "?" is not a difference',
                        'multi-binding empty entries on rewrite (known finding of C05) are projected away']
-    r = tlc.run_tlc(S, cfgpath('Slash_quick.cfg'), timeout=3000)
+    r = tlc.run_tlc(S, cfgpath('Slash_quick.cfg' if quick else 'Slash_thorough.cfg'), timeout=3000)
     run.add_tlc('Slash exhaustive', r)
     run.exhaustive = r.complete
     if r.violated:
@@ -184,7 +188,8 @@ def check(run):
     kinds = sorted(KIND)
     modes = ['redirect', 'strict', 'rewrite']
     for tid in range(1, (400 if quick else 20000) + 1):
-        cfg = {'appMode': rng.choice(modes), 'routeMode': rng.choice(modes), 'inherit': rng.random() < 0.6,
+        cfg = {'appMode': rng.choice(modes), 'routeMode': rng.choice(modes), 'innerMode': rng.choice(modes),
+               'embed': rng.random() < 0.4, 'inherit': rng.random() < 0.6,
                'kind': rng.choice(kinds), 'methods': rng.choice(['any', 'GET'])}
         nseg = rng.choice([0, 1, 2, 2, 2, 3, 3, 4, 5])
         texts = {'a': 'a', 'b': 'b'}
